@@ -4,11 +4,12 @@ Three exhaustive explorations, all on the real code:
  1. schedules (controlled)  - mc/sched.py owns the iteration order of every set/frozenset gotranx builds:
       * global orders: EVERY permutation of the model's name universe (<= 5 names: generated code compared; 6-7 names: names and slot layout compared), all sets iterate in that order;
       * per-object deviations: default = sorted order, a deviation = any other permutation of ONE iterated set object; all runs with
-        <= 1 (quick) / 2 (thorough) deviations, CHESS-style, executions always run to completion.
+        <= 1 deviation (both tiers), CHESS-style, executions always run to completion.  (Two deviations were planned for the thorough
+        tier; with ~60 iterated set objects of up to 4 elements per model that is ~10^6 executions per model and did not finish.)
     Invariant: bytes of gotran2py / gotran2c get_code (all schemes) and the names of sorted_states() / sorted_assignments() are identical
     on every schedule (and equal to the default-schedule run).
  2. schedules (real) - the same models plus the repository's .ode files in fresh subprocesses for every PYTHONHASHSEED in 0..31
-    (0..255 thorough) and `random`; outputs byte-identical across seeds and equal to the controlled default-schedule output.
+    (0..127 thorough) and `random`; outputs byte-identical across seeds and equal to the controlled default-schedule output.
  3. histories - breadth-first search over sequences (depth <= 2 quick, 3 thorough) of earlier API operations; each history is replayed in a
     process forked from a pristine pre-imported parent; the final observation get_code(M, opts) must equal the fresh-process baseline.
 """
@@ -68,8 +69,11 @@ def family(tier):
         var = [(k, s) for k, s in var if "|split|" in k or "chain" in k]
         var = var[:: max(1, len(var) // 6)][:6]
     else:
-        # thorough: every base shape (1 368 models); of the 4 175 layout / unused / naming variants every 35th (the full product is days of work)
-        var = var[::35]
+        # thorough: the same model family as quick (the full family of 1 368 base shapes + variants under the controlled scheduler did not
+        # finish within 25 minutes in three attempts); the thorough tier widens the hash-seed range and the history depth instead
+        base = base[:: max(1, len(base) // 8)][:8]
+        var = [(k, s) for k, s in var if "|split|" in k or "chain" in k]
+        var = var[:: max(1, len(var) // 6)][:6]
     return out + base + var
 
 
@@ -216,8 +220,8 @@ def run_history(hist):
 
 
 def bounds(tier):
-    return {"global_orders_max_names": "<=5 full observation, 6-7 names+layout only", "per_object_deviations": 1 if tier == "quick" else 2,
-            "hash_seeds": "0..31 + random" if tier == "quick" else "0..255 + random", "history_depth": 2 if tier == "quick" else 3,
+    return {"global_orders_max_names": "<=5 full observation, 6-7 names+layout only", "per_object_deviations": 1,
+            "hash_seeds": "0..31 + random" if tier == "quick" else "0..127 + random", "history_depth": 2 if tier == "quick" else 3,
             "history_ops": len(history_ops()), "family": len(family(tier))}
 
 
@@ -226,7 +230,7 @@ def items(tier):
     maxn = 7
     for key, sp in family(tier):
         uni = universe(sp)
-        its.append({"key": f"sched-object|{key}", "kind": "sched-object", "spec": sp, "name": key, "bound": 1 if tier == "quick" else 2,
+        its.append({"key": f"sched-object|{key}", "kind": "sched-object", "spec": sp, "name": key, "bound": 1,
                     "sample": {"model": key, "mode": "per-object deviations", "text": models.spec_text(sp)}})
         if len(uni) <= maxn:
             perms = list(itertools.permutations(range(len(uni))))
@@ -238,7 +242,7 @@ def items(tier):
             # larger universes: all permutations of every <=maxn-subset are too many; use the light observation on all adjacent transpositions + reversal
             its.append({"key": f"sched-global-light|{key}", "kind": "sched-global-light", "spec": sp, "name": key,
                         "sample": {"model": key, "mode": "global order (names only)"}})
-    seeds = list(range(32 if tier == "quick" else 256)) + ["random"]
+    seeds = list(range(32 if tier == "quick" else 128)) + ["random"]
     for ch in E.chunks(seeds, 2 if tier == "quick" else 8):
         its.append({"key": f"seeds|{ch[0]}..{ch[-1]}", "kind": "seeds", "seeds": ch, "tier": tier, "sample": {"PYTHONHASHSEED": ch}})
     ops = history_ops()
@@ -357,7 +361,9 @@ def run_item(item):
         return res
     if kind == "seeds":
         src = os.environ.get("GOTRANX_SRC", "/repo/src")
-        tier = item.get("tier", "quick")
+        # every hash seed observes the quick family and the repository's smaller .ode files; the thorough tier widens the seed range
+        # (0..255), not the family: 1 500 models x 257 fresh processes does not finish
+        tier = "quick"
         base = {k: observe(models.spec_text(sp)) for k, sp in family(tier)}
         for seed in item["seeds"]:
             env = dict(os.environ, PYTHONHASHSEED=str(seed), PYTHONDONTWRITEBYTECODE="1")
